@@ -309,6 +309,40 @@ func (w *world) opLose(t *inst, op Op) {
 		donor.PutNode(nr.key, nr.node)
 		donorSnap[string(nr.key)] = string(nr.node.Encode())
 	}
+	// donor kinds: a memory store holding exactly the lost nodes, or (1 in 4) the state store of a peer that has
+	// moved on: a level store whose lower level holds the complete state and over which a trie of the next
+	// version has already replaced some nodes (with deletes not propagated the lower level keeps serving them)
+	var donorDB util.NodeDB = donor
+	if (op.N/11)%4 == 3 && op.P != "norepair" {
+		base := util.NewMemoryNodeDB()
+		for _, n := range nodes {
+			base.PutNode(n.key, n.node.CloneNode())
+		}
+		ldb := util.NewLevelNodeDB(util.NewMemoryNodeDB(), base, false)
+		w.guard("later block on the donor store", func() {
+			later := util.NewMerklePatriciaTrie(ldb, util.Sequence(t.ver+1), root, w.newCache())
+			keys := sim.SortedKeys(before)
+			rr := sim.NewRand(uint64(op.N)*7 + 3)
+			for j := 1 + rr.Intn(3); j > 0 && len(keys) > 0; j-- {
+				k := keys[rr.Intn(len(keys))]
+				if rr.Chance(1, 3) {
+					later.Delete(util.Path(k))
+				} else {
+					later.Insert(util.Path(k), val([]byte("later")))
+				}
+			}
+		})
+		if w.v != nil {
+			return
+		}
+		donorDB = ldb
+		donorSnap = map[string]string{}
+		_ = donorDB.Iterate(context.Background(), func(ctx context.Context, key util.Key, node util.Node) error {
+			donorSnap[string(key)] = string(node.Encode())
+			return nil
+		})
+		w.stats.Inc("probe.donor-is-a-later-blocks-level-store")
+	}
 	for _, i := range lostIdx {
 		w.delFrom(t, nodes[i].key)
 		w.stats.Inc("fault.node-lost")
@@ -419,11 +453,11 @@ func (w *world) opLose(t *inst, op Op) {
 	var rerr error
 	if op.N%5 == 4 {
 		// the other documented way: copy the donor store into the trie's store as a whole
-		if w.guard("MergeState", func() { rerr = util.MergeState(context.Background(), donor, t.db) }) {
+		if w.guard("MergeState", func() { rerr = util.MergeState(context.Background(), donorDB, t.db) }) {
 			return
 		}
 		w.stats.Inc("probe.repair-by-mergestate")
-	} else if w.guard("MergeDB", func() { rerr = rep.MergeDB(donor, root, nil) }) {
+	} else if w.guard("MergeDB", func() { rerr = rep.MergeDB(donorDB, root, nil) }) {
 		return
 	}
 	if rerr != nil {
@@ -432,7 +466,7 @@ func (w *world) opLose(t *inst, op Op) {
 	}
 	// donor unchanged
 	dn := map[string]string{}
-	_ = donor.Iterate(context.Background(), func(ctx context.Context, key util.Key, node util.Node) error {
+	_ = donorDB.Iterate(context.Background(), func(ctx context.Context, key util.Key, node util.Node) error {
 		dn[string(key)] = string(node.Encode())
 		return nil
 	})
@@ -476,7 +510,7 @@ func (w *world) opLose(t *inst, op Op) {
 		w.guard("continuation after repair", func() {
 			// on private upper levels, so that nothing is written to or deleted from the store under test
 			rep2 := util.NewMerklePatriciaTrie(util.NewLevelNodeDB(util.NewMemoryNodeDB(), t.db, false), util.Sequence(rver), root, w.newCache())
-			if err := rep2.MergeDB(donor, root, nil); err != nil {
+			if err := rep2.MergeDB(donorDB, root, nil); err != nil {
 				return
 			}
 			if _, err := rep2.Insert(util.Path("0f"), val([]byte("after-repair"))); err != nil {
@@ -486,7 +520,7 @@ func (w *world) opLose(t *inst, op Op) {
 			_ = x.MergeChanges(rep2.GetChanges())
 		})
 		dn = map[string]string{}
-		_ = donor.Iterate(context.Background(), func(ctx context.Context, key util.Key, node util.Node) error {
+		_ = donorDB.Iterate(context.Background(), func(ctx context.Context, key util.Key, node util.Node) error {
 			dn[string(key)] = string(node.Encode())
 			if !bytes.Equal(key, node.GetHashBytes()) {
 				dn[string(key)] = "stored under a key that is not its hash"
@@ -523,7 +557,7 @@ func (w *world) opLose(t *inst, op Op) {
 			if err := T.SaveChanges(context.Background(), S, false); err != nil {
 				return
 			}
-			if err := T.MergeDB(donor, r2, nil); err != nil {
+			if err := T.MergeDB(donorDB, r2, nil); err != nil {
 				return
 			}
 			if err := T.SaveChanges(context.Background(), S, false); err != nil {
